@@ -16,10 +16,20 @@ CHECK = {
          'blip part: every user x sub-protocol V2 (default collection only), V3, V4 x 5 sessions (plain pull, channel filter+activeOnly+known revs+deltas, '
          'docIDs filter, since+replacement revs, no subscription) with getAttachment for every attachment of the model while a revision is in flight and on '
          'an idle connection, proveAttachment for every digest, getRev for every document; warm and flushed caches. '
-         'distinct_nontrivial = distinct (request/message shape x cache state x kind of user access); an evaluation = one scanned response or message.',
+         'live part (6 quick / 40 thorough corpora): 5 users (direct, role, direct+role, two roles, document grant) each keep open two continuous REST '
+         '_changes feeds with include_docs (plain; style=all_docs+revocations) through a real HTTP server, a longpoll include_docs loop, a continuous V3 BLIP '
+         'pull that stores every rev and a continuous V4 BLIP pull that answers every rev with an error; the scenario runs the 8 grant-change chains in a '
+         'seeded order (user channel removed/added; role membership removed/added; role swapped for another of equal count, then that role loses its channel; '
+         'role channel removed/added; one of two roles swapped, then the new role deleted; document moved out and back; access() grant withdrawn/made; role '
+         'gains and loses a channel), one acknowledged mutation per epoch, each access loss followed by a hold epoch; after the barrier of every epoch a new '
+         'document with attachment is written to every channel plus a sentinel, the streams are drained and getAttachment is sent for the recent and '
+         'initial attachments on both BLIP connections. '
+         'distinct_nontrivial = distinct (request/message shape x cache state or grant-change kind x kind of user access); an evaluation = one scanned '
+         'response, streamed line or message.',
  'parts': [
    {'name': 'rest', 'pkg': 'rest', 'run': '^TestVerif_C02_Rest$', 'timeout_q': 600, 'timeout_t': 3300, 'env': {'SG_TEST_BUCKET_POOL_SIZE': '8'}},
    {'name': 'blip', 'pkg': 'rest', 'run': '^TestVerif_C02_Blip$', 'timeout_q': 600, 'timeout_t': 3300, 'env': {'SG_TEST_BUCKET_POOL_SIZE': '8'}},
+   {'name': 'live', 'pkg': 'rest', 'run': '^TestVerif_C02_Live$', 'timeout_q': 600, 'timeout_t': 3300, 'env': {'SG_TEST_BUCKET_POOL_SIZE': '8'}},
  ],
  'min_evals': 150000,
  'min_counters': {
@@ -44,6 +54,21 @@ CHECK = {
    'blip.forbidden_attachment_requests': 12000,
    'blip.forbidden_attachment_requests_refused': 10000,
    'blip.forbidden_getRev_requests': 500,
+   'live.corpora': 6,
+   'live.scenarios_completed': 6,
+   'live.epochs': 150,
+   'live.epochs_drained': 150,
+   'live.listeners': 150,
+   'live.continuous_lines': 5000,
+   'live.longpoll_responses': 600,
+   'live.messages_scanned': 50000,
+   'live.access_losses': 50,
+   'live.revisions_written_to_a_channel_a_listening_user_has_lost': 250,
+   'live.revisions_written_while_a_listening_user_may_not_see_them': 1000,
+   'live.rev_error_replies': 1500,
+   'live.forbidden_attachment_requests_on_open_connections': 5000,
+   'live.distinct_shapes': 8,
+   'live.distinct_shapes_with_allowed_token_sighting': 8,
  },
  'assumptions': [
    'the harness model is the reference: channels(rev) = the ch array of its body (sync function channel(doc.ch)), effective(user) = admin grants + role '
@@ -54,6 +79,9 @@ CHECK = {
    'delta sync (deltas=true is offered by the client) is not available in the CE build: delta messages are not exercised',
    'tokens use only [A-Za-z0-9-]; the scanner reads raw bytes, gzip members and base64 runs (recursively) of bodies, HTTP headers and BLIP properties; '
    'other encodings of a body (e.g. a hash or proof of it) are not regarded as disclosure',
+   'live part: a grant change counts from the moment the admin request is acknowledged and the change cache has processed it (barrier: '
+   'WaitForPendingChanges + plain GETs by every user answer as the model says); only revisions written after that get no in-flight allowance; on an '
+   'open BLIP connection an attachment may still be served for one epoch after the revision that carried it was delivered',
    'existence disclosure by status code for a document id the client itself names (403 vs 404, _revs_diff) is not judged: a token the request contains is '
    'not counted when it is echoed',
  ],
@@ -69,6 +97,6 @@ META = {
                'of responses, bytes, shapes and forbidden (user, revision) pairs are required.',
  'level_note': 'Trusted: the harness model (validated against the stored channel metadata and the admin view of user channels), the scanner, the Go '
                'runtime, the rosmar store. Bounds: 3 channels, 8 documents per corpus, single node, single collection per database, no delta sync (CE), '
-               'continuous/websocket _changes feeds and ISGR-specific messages are not exercised; timing channels and existence-by-status-code for '
+               'websocket _changes feeds and ISGR-specific messages are not exercised; the live part serialises grant changes (one per epoch, streams drained in between), it does not race them against the feed; timing channels and existence-by-status-code for '
                'client-named ids are out of scope.',
 }
